@@ -804,7 +804,7 @@ impl World {
         let sc: String = p.statuses.iter().map(|c| char::from(b'0' + c)).collect();
         let body = json!({"seq":p.sequence,"rseq":p.round_sequence,"ttl":p.ttl,"round":p.round,
             "rs":us(p.round_start),"tf":p.target_found,"mrt":opt(p.max_received_ttl),
-            "tt":opt(p.target_ttl),"rt":p.received_time.map_or(-1, us),"sc":sc,
+            "tt":opt(p.target_ttl),"rt":p.received_time.map_or(-1, us),"sc":sc,"scn":p.statuses,
             "bc":p.buffer_counts});
         let s = body.to_string();
         if s != self.last_st || self.force_st {
